@@ -25,7 +25,7 @@ from ..pool import WorkerDied
 ID = "C29"
 LEVEL = "exploration"
 BUDGET = {"quick": 20, "thorough": 240}
-FLOOR = {"quick": 200, "thorough": 300}
+FLOOR = {"quick": 100, "thorough": 180}
 RULE = ("per case one function group and a batch of 64 operands: finite doubles over all exponents (random "
         "bit patterns, edge pool, decimal ties k.5*10^-p, neighbours), i64 edges; precisions -400..400 plus "
         "i64 extremes, concentrated near 0, +-16, +-308, +-323; mod operand pairs incl. equal/negated/huge "
